@@ -311,6 +311,11 @@ def run(ctx):
                 guarded.append((show(paths.bool_atoms(gs[0])[1])[:60], cm.loc_of(st["span"])))
         if guarded:
             base = reb.local(0)
+            if base[0] == "var" and isinstance(base[1], int):
+                # an early `return buffer` next to the final one: the same buffer on every path
+                ds_ = reb.def_exprs_deep(base[1])
+                if ds_ and len({canon(d_) for d_ in ds_}) == 1:
+                    base = ds_[0]
             copy_ok = False
             if base[0] == "call" and base[1].rsplit("::", 1)[-1] in ("to_coef", "to_cep"):
                 meth = base[1].rsplit("::", 1)[-1]
